@@ -241,8 +241,8 @@ def obligations(tier):
         CH('W_single_fault', MOD, 'w_single', timeout=1800, partitions=parts, engine='W', regime='selector', encodes=enc,
            stubs=K.STUBS, bounds='fault index k in 0..71 (runs are shorter: indices beyond the run inject nothing) x 10 errnos x '
                                  '%d kinds x 6 candidate layouts' % len(set(p[0] for p in parts))),
-        CH('W_single_fault_with_force_option', MOD, 'w_single_f', timeout=1800, partitions=[(k, l) for k in (0, 2) for l in range(6)], engine='W', regime='selector', encodes=enc,
-           stubs=K.STUBS, bounds='trash-put -f: fault index k in 0..71 x 10 errnos (incl. ENOENT) x 2 kinds x 6 layouts'),
+        CH('W_single_fault_with_force_option', MOD, 'w_single_f', timeout=1800, partitions=[(k, l) for k in (0, 2, 5) for l in range(6)], engine='W', regime='selector', encodes=enc,
+           stubs=K.STUBS, bounds='trash-put -f: fault index k in 0..71 x 10 errnos (incl. ENOENT) x 3 kinds (file, directory, dangling link) x 6 layouts'),
         CH('W_persistent_fault', MOD, 'w_persistent', timeout=1800, partitions=parts, engine='W', regime='selector', encodes=enc,
            stubs=K.STUBS, bounds='same space; after the first injection every later call of the same kind in the same directory fails too'),
     ]
